@@ -153,6 +153,7 @@ LEX_POOL = [
     "true", "false", "50%", "-12.5%", "0.5%", "100%", "0%", "150%", "1000%", "1.5pt", "2in", "-3.2mm", "1cm", "1pc", "1pi", "0in", "12700",
     "FF00aa", "ff0000", "000000", "1.5", "1e3", "INF", "-INF", "NaN", "1.0E2", "0.0", "-0.0", ".5", "5.", "100000", "50000", "-50000",
     "Internal", "External", "abc", "rId1", "", "a b", "http://x/y", "application/xml", "xml",
+    " FF00aa ", "\n000000",  # (xsd:hexBinary collapses white space too)
     " 1 ", "\ttrue\n", " false", "0 ",  # (xsd:boolean, like the numbers, collapses white space: valid forms of 1, true, false, 0)
 ]
 
@@ -268,6 +269,9 @@ def valid_for_any(types, text):
 
 def close(stname, wrote, got):
     """Is read-back `got` within the quantum of what was assigned?"""
+    if isinstance(wrote, str) and isinstance(got, str) and stname in ("XsdToken", "XsdTokenEnumeration"):
+        # a token IS its white-space-collapsed form: ' a  b ' and 'a b' are one value of the type
+        return re.sub("[ \t\n\r]+", " ", got).strip(" ") == re.sub("[ \t\n\r]+", " ", wrote).strip(" ")
     if isinstance(wrote, str) or wrote is None:
         return got == wrote
     if isinstance(wrote, bool) and isinstance(got, bool):
@@ -520,8 +524,8 @@ def equivalent_plain_form(text):
     if m:
         v = decimal.Decimal(m.group(1)) * _UM[m.group(2)]
         return str(int(v)) if v == v.to_integral_value() else None
-    if text != text.strip() and text.strip() in ("0", "1"):
-        return text.strip()
+    if text != text.strip() and text.strip() and text.strip() not in ("true", "false"):
+        return text.strip()  # (every type but xsd:string collapses white space; string-typed readings are not compared)
     return {"true": "1", "false": "0"}.get(text.strip())
 
 
@@ -644,6 +648,14 @@ def _alternatives(el, name, text):
         out.append(("-00" + text[1:]) if text.startswith("-") else "00" + text)  # leading zeros: the same number
     else:
         out += {"true": ["1"], "false": ["0"]}.get(text, [])
+    # white space around the value, where the type collapses it (numbers, booleans, tokens, hexBinary colours - not strings, where
+    # it is part of the value, and not unions, whose string members would make it one)
+    try:
+        base = xsdkit.model().facets(typ).get("base")
+    except Exception:  # noqa
+        base = None
+    if base in ("token", "hexBinary", "boolean", "int", "unsignedInt", "long", "unsignedLong", "short", "unsignedShort", "byte", "unsignedByte", "integer", "double") and text == text.strip():
+        out += [" %s " % text, "\n%s" % text]
     good = []
     for alt in out:
         try:
